@@ -12,20 +12,24 @@ import AdaptixModel.Generated.C08Literal
 
 namespace Adaptix.Default
 
-/-- The context of the translated module for a given `sorted` oracle. -/
-def theCtx (sorted : List Val → Option (List Val)) : Ctx :=
+/-- The context of the translated module. -/
+def theCtx : Ctx :=
   { funcs := Generated.funcs
     builtinToName := Generated.builtinToName
     nameToBuiltin := Generated.nameToBuiltin
-    clsToFactoryLiteral := Generated.clsToFactoryLiteral
-    sorted := sorted }
+    clsToFactoryLiteral := Generated.clsToFactoryLiteral }
+
+/-- Python's `sorted` on the elements of a set (`none` = TypeError) is not
+    modelled: it is a parameter, and the theorems hold for every oracle that
+    returns a permutation of its argument. -/
+abbrev SortOracle := List Val → Option (List Val)
 
 /-- outcome of `get_literal_expr(v)` / `get_literal_from_factory(f)`:
     `some t` the text, `none` Python `None`. -/
 inductive LitRes where
   | text (t : Txt)
   | noLiteral
-  | raised (cls : String)     -- an exception escapes the function
+  | raised (cls : Exc)        -- an exception escapes the function
   | stuck (msg : String)      -- outside the model / out of fuel
   deriving Repr, Inhabited
 
@@ -37,20 +41,20 @@ def toLitRes : Res PV → LitRes
   | .stuck m => .stuck m
 
 /-- `get_literal_expr(v)` as the source says now. -/
-def literalExprFuel (sorted : List Val → Option (List Val)) (fuel : Nat) (v : Val) : LitRes :=
-  toLitRes (callFn (theCtx sorted) fuel "get_literal_expr" [.v v])
+def literalExprFuel (sorted : SortOracle) (fuel : Nat) (v : Val) : LitRes :=
+  toLitRes (callFn theCtx sorted fuel "get_literal_expr" [.v v])
 
 /-- enough fuel for every value: 4 Python-level calls per nesting level
     (get_literal_expr → _get_complex_literal_expr → _parenthesize →
     _provide_lit_expr) plus `_try_sort`. -/
 def fuelFor (v : Val) : Nat := 5 * v.depth + 5
 
-def literalExpr (sorted : List Val → Option (List Val)) (v : Val) : LitRes :=
+def literalExpr (sorted : SortOracle) (v : Val) : LitRes :=
   literalExprFuel sorted (fuelFor v) v
 
 /-- `get_literal_from_factory(f)`. -/
 def literalFromFactory (f : Val) : LitRes :=
-  toLitRes (callFn (theCtx fun _ => Option.none) 2 "get_literal_from_factory" [.v f])
+  toLitRes (callFn theCtx (fun _ => Option.none) 2 "get_literal_from_factory" [.v f])
 
 /-! ## The three renderings of a default (loader_gen.py) -/
 
@@ -71,7 +75,7 @@ inductive Clause where
 
 /-- `BuiltinModelLoaderGen._get_default_clause_expr`; `none` = `raise ValueError`
     (never reached: such fields are packed), or the renderer failed. -/
-def defaultClause (sorted : List Val → Option (List Val)) : Default → Option Clause
+def defaultClause (sorted : SortOracle) : Default → Option Clause
   | .value v =>
     match literalExpr sorted v with
     | .text t => some (.inline t)
@@ -135,7 +139,7 @@ inductive NsBinding where
   | byRef (v : Val)
   deriving Repr, Inhabited
 
-def nsConstant (sorted : List Val → Option (List Val)) (v : Val) : Option NsBinding :=
+def nsConstant (sorted : SortOracle) (v : Val) : Option NsBinding :=
   match literalExpr sorted v with
   | .text t => some (.literal t)
   | .noLiteral => some (.byRef v)
